@@ -93,6 +93,11 @@ prop("C14", "A reset or pooled context behaves like a new one", [
     ("lookup_ignores_scratch", "ctx_get_core", "nor do lookups"),
     ("arguments_ignore_scratch", "collect_args_core", "nor argument vectors"),
     ("stale_verdict_cannot_survive", "ctx_cmp_found_full", "after a comparison the whole context is the same whatever the cells held"),
+    ("pool_objects_in_one_place", "prun_inv", "internal pools: after any history of AcquireFrom / Reset over any number of contexts every object is in exactly one place (a free list or one context)"),
+    ("never_handed_out_twice", "never_handed_out_twice", "so an object is never handed out while someone holds it"),
+    ("reset_returns_all", "reset_returns_all", "Reset resets and puts back exactly the objects the context borrowed, once each, in order"),
+    ("reset_holds_nothing", "reset_holds_nothing", "and holds nothing afterwards"),
+    ("unknown_pool_is_noop", "acquire_unknown", "an unknown pool name acquires nothing"),
 ])
 
 prop("C15", "A failing rule stops the decode and the failure is reported", [
